@@ -423,9 +423,19 @@ def run(ctx):
                     "escape_text iterates the UTF-8 bytes of the text and writes each byte `as char`: every non-ASCII character is replaced by two to four Latin-1 characters (the printed string parses as a different text)" if bytes_iter and widened else "the pass-through arm writes `%s`, which is not the current character" % a[:60])
         un = [b for b in rc.all_bodies() if b.defpath.endswith("tokens::unescape::{closure#0}")]
         if len(un) != 1:
-            raise AnchorMissing("tokens::unescape closure")
+            # the state machine written as a loop in the function itself
+            un = [rc.fn(suffix="tokens::unescape")]
         un = ctx.saw(un[0])
         dec = {}
+        # the decoding table as a function of its own (`fn simple_escape(c: char) -> Option<char>`): evaluated letter by letter
+        table_fns = []
+        for d_ in sorted(set(getattr(un, "inlined_helpers", None) or [])):
+            hb = rc.body(d_)
+            if "{closure" not in d_ and hb.argc == 1 and len(hb.locals) > 1 and hb.locals[1] == "char" and hb.locals[0].replace(" ", "") == "core::option::Option<char>":
+                table_fns.append(hb)
+        helper_table = None
+        if not [b for b in rc.all_bodies() if b.defpath.endswith("tokens::is_escape")] and len(table_fns) == 1:
+            helper_table = ctx.saw(table_fns[0])
         for i, j, p, rv, line in un.assigns():
             if rv[0] == "use" and rv[1][0] == "k" and "char" in str(rv[1][1].get("ty")):
                 g = guards(un, i)
@@ -442,12 +452,23 @@ def run(ctx):
                 scr = [d for d, l, _ in g_ if l == "otherwise" or l.isdigit()]
                 if describe_operand(un, rv[1]) in [d for d, l, _ in g_ if l == "otherwise"]:
                     ident = True
-        ie = ctx.saw(rc.fn(suffix="tokens::is_escape"))
-        if ident:
-            for letter_ in set(table.values()):
-                dec.setdefault(letter_, letter_)
-        # what is_escape answers for each letter the printer uses (and a few it does not), whatever form the predicate is written in
-        accepted = {ch_ for ch_ in set(table.values()) | set("bfnrt\"\\/u0x ") if ie.eval_const({1: ord(ch_)}) == {True}}
+        if helper_table is not None:
+            ie = helper_table
+            accepted = set()
+            for ch_ in sorted(set(table.values()) | set("bfnrt\"\\/u0x ")):
+                res = ie.eval_const({1: ord(ch_)}, want_option=True)
+                if len(res) == 1 and list(res)[0] is not None and list(res)[0][0] == "Some":
+                    accepted.add(ch_)
+                    pay = list(res)[0][1]
+                    if isinstance(pay, int):
+                        dec[ch_] = chr(pay)
+        else:
+            ie = ctx.saw(rc.fn(suffix="tokens::is_escape"))
+            if ident:
+                for letter_ in set(table.values()):
+                    dec.setdefault(letter_, letter_)
+            # what is_escape answers for each letter the printer uses (and a few it does not), whatever form the predicate is written in
+            accepted = {ch_ for ch_ in set(table.values()) | set("bfnrt\"\\/u0x ") if ie.eval_const({1: ord(ch_)}) == {True}}
         for ch, letter in sorted(table.items()):
             r.check(dec.get(letter) == ch, "escape/%r<->%r/inverse" % (ch, letter), where(un), "printer writes %r as \\%s and the tokenizer reads \\%s as %r" % (ch, letter, letter, dec.get(letter)),
                     "printer writes %r as \\%s but the tokenizer reads \\%s as %r" % (ch, letter, letter, dec.get(letter)))
